@@ -19,19 +19,42 @@ MANIFEST = {
             'executions (index_started_once) and rerun(reset=false) starts only items without an accepted SUCCESS '
             '(rerun_only_failed) - both true since repository fix 494951d1, their former counter-witnesses are '
             'regressions. One full statement is FALSE of the code and kept as _full_fails with a witness replayed on the '
-            'real engine: a CANCELLED item completes the task while others run or were never started.',
+            'real engine: a CANCELLED item completes the task while others run or were never started. EVALUATION '
+            '(EvalSpec: the with-items expression, the action input of every item, the concurrency value; stepE/runE, '
+            'stepE {} = step so the theorems above are the evaluation-clean histories): for every failure table, every '
+            'state and every scheduling round an item input of the portion that fails to evaluate schedules NO action '
+            'of that round and the task is ERROR (input_failure_starts_nothing); a transaction that creates executions '
+            'never completes their task and a completed task gets no execution except by an explicit rerun '
+            '(created_only_while_task_open, completed_task_has_no_running_child_started_later); unequal / non-iterable '
+            'item lists, a failing items expression or an ill-typed concurrency are a declared error in the start '
+            'transaction and nothing is ever started, reruns included (unevaluable_items_start_nothing); no index is '
+            'started twice and none >= n for ALL tables (index_started_once_all_tables). Two full statements are FALSE '
+            'of the unchanged code over the failure tables and kept as _full_fails (witnesses replayed, known findings) '
+            'with _partial for tables without failing inputs: an input that fails in a LATER concurrency round fails the '
+            'task while siblings are RUNNING, and a rerun of that task exceeds the concurrency limit.',
     'note': 'Engine-level: one transaction = one step (in-process tx_lock atomicity); multi-process interleavings '
             'inside on_action_complete are serialised by the named lock and are not exhibited. Sub-workflow items are '
-            'not generated (actions only). Rerun is modelled for ERROR tasks (the REST API refuses others).',
+            'not generated (actions only). Rerun is modelled for ERROR tasks (the REST API refuses others). The '
+            'outcome of every evaluation is an oracle of the run (EvalSpec), fixed for the whole history; YAQL/Jinja '
+            'themselves are not modelled. Action-parameter VALIDATION and target evaluation, which the code does per item '
+            'inside the scheduling loop (a defect of its own, docs/C07.md X2), and a float concurrency (X1, repo patch 24 '
+            'offered) are outside the model and not generated.',
 }
 RULE = ('stream withitems: generated workflows with one with-items task (n = 0..8 items from the input, concurrency '
         'absent / literal 1..n+1 (or 0) / expression <% $.c %> / task-defaults, std.echo or std.noop, optional retry '
         'policy, optional downstream task reading task(t1).result) x per-item outcome tables (success/error/cancel per '
         'attempt) x schedules (random / fifo / lifo) x optional rerun(s) (reset on/off, at quiescence or as soon as '
-        'the task is ERROR); every committed transaction is one evaluation point of the model comparison. '
-        'non-trivial = n >= 2 and the items completed in an order different from their start order; distinct = '
+        'the task is ERROR) x evaluation failures in ~40 % of the cases (the action input of chosen item indexes '
+        'fails to evaluate: division by zero inline / in an input dict / nested, conditional unknown function or '
+        'variable, non-dict dynamic input, Jinja - in the first portion or in a later concurrency round; the '
+        'with-items expression fails, is not iterable or gives lists of unequal length; `concurrency` evaluates to an '
+        'ill-typed value) and other shapes of the items (dict, string, nested list, two lists of equal length); '
+        'every committed transaction is one evaluation point of the model comparison. '
+        'non-trivial = n >= 2 and the items completed in an order different from their start order, or an '
+        'evaluation failure struck while a sibling item was RUNNING; distinct = '
         'distinct (case, schedule). stream withitems-exh: all outcome assignments x all orders of item results and '
-        'completion jobs for n <= 2 (quick) / n <= 4 (thorough).')
+        'completion jobs for n <= 2 (quick) / n <= 4 (thorough); every non-empty set of failing item inputs x '
+        'concurrency x all orders (+ rerun with and without reset) for n <= 2 / n <= 3.')
 TRUSTED = [
     'harness/engine_driver.py seams (post-commit thread, RPC client, scheduler, executor, clock, uuid) and '
     'snapshot(); harness/withitems_stream.py event -> model-operation mapping',
@@ -48,6 +71,15 @@ WITNESSES = [
     {'theorem': 'completes_iff_all_done_full_fails', 'n': 2, 'conc': None,
      'kind': 'cancelled-item-completes-task-before-all-items',
      'ops': [S, R(0, 'CANCELLED'), H]},
+    # the input of item 3 fails to evaluate; with limit 2 it is evaluated by the completion job that reaches it
+    {'theorem': 'error_task_has_no_running_child_full_fails', 'n': 4, 'conc': 2,
+     'eval': {'items': 'list', 'input': 'div-inline', 'bad': [3]},
+     'kind': 'task-completed-before-all-items',
+     'ops': [S, R(0, 'SUCCESS'), H, R(1, 'SUCCESS'), H]},
+    {'theorem': 'running_le_concurrency_all_tables_full_fails', 'n': 4, 'conc': 2,
+     'eval': {'items': 'list', 'input': 'div-inline', 'bad': [3]},
+     'kind': 'running-exceeds-concurrency',
+     'ops': [S, R(0, 'SUCCESS'), H, R(1, 'SUCCESS'), H, {'op': 'rerun', 'reset': True}]},
 ]
 # former counter-witnesses of index_started_once / rerun_only_failed (fixed by /repo 494951d1): now
 # regressions in corpus/C07 (k1_*, k2_*) that must run without any monitor hit or disagreement
@@ -56,7 +88,10 @@ WITNESSES = [
 def witness_case(drv, w):
     """a real-engine case (outcome table + script) from a model operation sequence"""
     from harness import withitems_stream as ws
-    states = drv.call('withitems.run', {'n': w['n'], 'conc': w['conc'], 'retries': 0, 'ops': w['ops']})
+    args = {'n': w['n'], 'conc': w['conc'], 'retries': 0, 'ops': w['ops']}
+    if w.get('eval'):
+        args['eval'] = ws.eval_spec({'eval': w['eval']})
+    states = drv.call('withitems.run', args)
     table = {}
     seen = {}
     prev = None
@@ -72,6 +107,8 @@ def witness_case(drv, w):
     case = {'n': w['n'], 'conc_form': 'absent' if w['conc'] is None else 'literal', 'conc': w['conc'] or 0,
             'action': 'echo', 'retry': None, 'downstream': False, 'table': table, 'policy': 'fifo', 'reruns': [],
             'seed': 7}
+    if w.get('eval'):
+        case['eval'] = dict(w['eval'])
     return case, states
 
 
@@ -116,6 +153,11 @@ def exhaustive_specs(ctx, max_n, rerun_max_n, rerun_limit=40):
         if 'E' in outs and 'C' not in outs:
             for reset in (True, False):
                 specs.append((n, conc, outs, {'reset': reset, 'when': 'quiescent'}, rerun_limit))
+    # every non-empty set of failing item inputs x concurrency (absent, 1..n), all items succeed, all orders; then
+    # the same with a rerun (reset on and off) after the task has failed
+    for (n, conc, outs, bad) in ws.exhaustive_eval_cases(rerun_max_n):
+        for rr in (None, {'reset': True, 'when': 'quiescent'}, {'reset': False, 'when': 'quiescent'}):
+            specs.append((n, conc, outs, rr, rerun_limit, bad))
     rng = ctx.rng
     rng.shuffle(specs)
     # deal the expensive specs (many orders: large n, no or a wide limit) evenly over the workers
